@@ -314,7 +314,7 @@ def _eval_b(t, binds, backend):
     return None if r[0] != "ok" else canon(r[1])
 
 
-def _probe(node, child_vals, backend, np_scalars=False):
+def _probe(node, child_vals, backend, np_scalars=False, via_compiled=False):
     """One IR node applied to fresh variables bound to its children's interpreted values:
     compiled twin vs interpreted twin.  With np_scalars, scalar operands are supplied as the
     result of a compiled +/[v] (a NumPy/torch scalar, as compiled intermediates are)."""
@@ -328,6 +328,10 @@ def _probe(node, child_vals, backend, np_scalars=False):
             if np_scalars and v[0] in ("I", "R"):
                 sub[i] = ["red", "+", ["var", names[j]]]
                 binds[names[j]] = ["L", [v]]
+            elif via_compiled and v[0] == "L":
+                # the operand as a compiled intermediate: (p)+(0) evaluated by compiled code
+                sub[i] = ["bin", "+", ["var", names[j]], ["lit", 0]]
+                binds[names[j]] = v
             else:
                 sub[i] = ["var", names[j]]
                 binds[names[j]] = v
@@ -365,6 +369,10 @@ def _blame(case, binds, idx):
             d = _probe(node, vals, backend, np_scalars=True)
             if d:
                 return node, d, [_coarse(v) + ("(np)" if v[0] in ("I", "R") else "") for v in vals]
+        if any(_coarse(v) == "nested" for v in vals):
+            d = _probe(node, vals, backend, via_compiled=True)
+            if d:
+                return node, d, [_coarse(v) + ("(compiled-intermediate)" if v[0] == "L" else "") for v in vals]
     return None
 
 
@@ -407,6 +415,10 @@ def run_case(ctx, case):
             # the torch interpreter path itself rejects an intermediate (not a compiler effect)
             sig = "torch-interpreter-raises|TypeError"
             what = "torch: interpreted path raises TypeError where the compiled path returns %s for %s" % (show["compiled"][idx], show["program"])
+        elif any(_coarse(c) == "nested" for c in binds.values()):
+            # nested (object-dtype) operands: compiled code applies NumPy object-array semantics
+            sig = "nested-binding|%s|%s" % (d, case["backend"])
+            what = "compiled %s vs interpreted %s for %s with nested binding %s" % (show["compiled"][idx], show["interpreted"][idx], show["program"], show["binds"])
         else:
             # differs only in context (position / history): that is the interesting, unlisted kind
             sig = "context-only|%s|%s|rebind=%s|eval#%d|%s|%s" % (_node_name(case["tree"]), case["pos"], bool(case["rebind"]), idx, d, case["backend"])
